@@ -104,6 +104,15 @@ def run(ctx, replay=None):
                     break
             # marginals = row / column of the table
             if not bad:
+                try:
+                    for j in range(T):
+                        V.get_marginal('space', j)
+                    for i in range(X):
+                        V.get_marginal('time', i)
+                except Exception as e:
+                    ctx.problem('oracle', 'get_marginal raises %s for a valid lag index: %s' % (type(e).__name__, str(e)[:80]), case, {'X': X, 'T': T}, {'what': 'marginal-raises'})
+                    ctx.case_done(case, nonempty >= 2)
+                    continue
                 for j in range(T):
                     ms = np.asarray(V.get_marginal('space', j), float)
                     if len(ms) != X or not all(same_float(ms[i], exp[i * T + j]) for i in range(X)):
